@@ -39,7 +39,27 @@
    Table value "rawbig": raw iff the collection has more than BigAbove
    members.  BigAbove is the model's scale of that threshold (the real one is
    unknown: the harness sends collections of 120 and 1 100 members through
-   the sites; their elements are BigBase+1 .. , plain elements). *)
+   the sites; their elements are BigBase+1 .. , plain elements).
+
+   Round 5: (a) a collection that is itself a MEMBER of a set or a KEY of a
+   map.  The outer container identifies its members by hash and equality; a
+   set / map must be identified by its content.  Sites "member.set" /
+   "member.map": how a set (map) is identified where it is a member or a key:
+   "sorted" = by its content (the sorted enumeration is the key), "raw" = by
+   the walk of its host container - then two EQUAL collections whose internal
+   orders differ (another construction order, colliding strings under
+   another hash seed) are two members.  Stage Twin: the collection and a twin
+   of the same content with an internal order of its own are put into one
+   outer set; the observation is the number of members of that set (1).
+   (b) places that enumerate NAMES rather than values: the symbols of a
+   module when `require` builds the module object or binds an import list /
+   `unqualified`, ls(), the members of an object.  The names of a module are
+   a collection, too: the element is the position of the definition in the
+   module source, `ord` the order of a host set of names, should the
+   implementation keep them in one.  For these sites "sorted" reads "in the
+   order of definition" (what a host dict gives): a function of the program.
+   Stage LastOne: the binding that stays when several symbols are imported
+   under ONE alias is the one enumerated last. *)
 EXTENDS Integers, Sequences, FiniteSets, SequencesExt, TLC
 
 ValOf(k) == 100 + ((k * 4) % 11)        \* distinct for k in 1..10 (and in 56..63), not monotone in k
@@ -140,7 +160,14 @@ Sites == {
                         \*   a function that reads .value walks the host set)
   "native.map",         \* the same for a map (sorted(m), enumerate(m), count(m, v) ...)
   "trace.set",          \* values.py Args.toStringAbbrev: the arguments in a stack-trace line, a set among them
-  "trace.map" }         \* the same, a map among them
+  "trace.map",          \* the same, a map among them
+  "member.set",         \* values.py ValueSet.__hash__ / __eq__: a set as member of a set / key of a map (also inside a
+                        \*   list, map or object that is the member); `in`, `-`, remove, unique, set(), append ... go through it
+  "member.map",         \* values.py ValueMap.__hash__ / __eq__: the same for a map
+  "names.module",       \* nodes.py NodeRequire: the symbols of a module become the members of the module object
+  "names.import",       \* nodes.py NodeRequire: import [a as f, b as f] / unqualified bind the symbols one after the other
+  "names.ls",           \* functions.py FuncLs / Environment.getSymbols
+  "names.object" }      \* values.py ValueObject: members (keys o, string(o), ls(o)) in the order of insertion
 
 (* The table: site -> "sorted" | "raw" | "rawbig" (raw iff the collection is big), plus one entry "relation" that says
    with which relation the sorting sites (and sorted()) sort:
@@ -216,6 +243,11 @@ Choice(n)     == [k |-> "choice", site |-> "",  proj |-> "",   n |-> n]   \* set
 Abbrev(n)     == [k |-> "abbrev", site |-> "",  proj |-> "",   n |-> n]   \* the first n and the last one (a long
                                                                           \*   argument in a stack-trace line)
 
+Twin(site)    == [k |-> "twin",  site |-> site, proj |-> "",  n |-> 0]   \* the collection and an equal one with an internal
+                                                                          \*   order of its own as members of one set (keys of
+                                                                          \*   one map): the number of members
+LastOne       == [k |-> "last",  site |-> "",   proj |-> "",   n |-> 0]   \* the last one (the binding that stays)
+
 P(id, stages) == [id |-> id, stages |-> stages]
 
 Programs == <<
@@ -273,11 +305,20 @@ Programs == <<
   P("trace.set.all",                <<E("trace.set", "elems")>>),
   \* round 4: the members that are complete in the 50-character excerpt of a LARGE argument
   P("trace.set.head",               <<E("trace.set", "elems"), Take(3)>>),
-  P("trace.map.head",               <<E("trace.map", "entries"), Take(3)>>)
+  P("trace.map.head",               <<E("trace.map", "entries"), Take(3)>>),
+  \* round 5: equal collections built in two orders as members of a set / keys of a map
+  P("member.set.twins",             <<Twin("member.set")>>),
+  P("member.map.twins",             <<Twin("member.map")>>),
+  \* round 5: enumerations of names
+  P("names.module",                 <<E("names.module", "elems")>>),
+  P("names.import.last",            <<E("names.import", "elems"), LastOne>>),
+  P("names.import+ls",              <<E("names.import", "elems"), B, E("names.ls", "elems")>>),
+  P("names.ls",                     <<E("names.ls", "elems")>>),
+  P("names.object",                 <<E("names.object", "elems")>>)
 >>
 
 ProgIdx(id) == CHOOSE i \in 1..Len(Programs) : Programs[i].id = id
-SitesOfProg(i) == {Programs[i].stages[j].site : j \in {j \in 1..Len(Programs[i].stages) : Programs[i].stages[j].k = "enum"}}
+SitesOfProg(i) == {Programs[i].stages[j].site : j \in {j \in 1..Len(Programs[i].stages) : Programs[i].stages[j].k \in {"enum", "twin"}}}
 
 MinI(a, b) == IF a < b THEN a ELSE b
 RECURSIVE SumSeq(_)
@@ -306,6 +347,8 @@ Apply(st, cur, tab, newOrd) ==
     [] st.k = "firstabove" -> SeqV(FirstAboveSeq(cur.seq, st.n))
     [] st.k = "fold"  -> SeqV(<<NcFoldSeq(cur.seq)>>)
     [] st.k = "abbrev" -> SeqV(AbbrevSeq(cur.seq, st.n))
+    [] st.k = "twin"  -> SeqV(<<IF RawAt(st.site, cur, tab) /\ newOrd # cur.ord THEN 2 ELSE 1>>)
+    [] st.k = "last"  -> SeqV(IF cur.seq = << >> THEN << >> ELSE <<cur.seq[Len(cur.seq)]>>)
     [] st.k = "choice" -> SeqV(IF cur.seq = << >> THEN << >>
                                ELSE <<cur.seq[RngInt(RngNext(st.n), 0, Len(cur.seq)) + 1]>>)
 
